@@ -80,7 +80,7 @@ for _cls, _mod in (('Client', 'client'), ('AsyncClient', 'async_client')):
     c.param('self', Ref(_cls)).param('pkt', Ref('Packet'))
     c.requires(CLIENT_WF, 'client-wf')
     c.requires('0 <= pkt.packet_type and pkt.packet_type <= 9', 'decoded-type-digit')
-    c.requires("api_payload(3, pkt.data)", 'decoded-payload')
+    c.requires("pkt.packet_type == 4 or not is_bin(pkt.data)", 'decoded-payload')
     c.requires("implies(self.state == 'connected', self.read_loop_task is not None)",
                'loops-running-while-connected')
     c.ensures('ping-answered-with-pong-carrying-the-same-data', "implies(pkt.packet_type == 2 and "
@@ -100,6 +100,18 @@ for _cls, _mod in (('Client', 'client'), ('AsyncClient', 'async_client')):
     c.ensures('close-disconnects-with-server-reason', "implies(pkt.packet_type == 1 and "
               "old(self.state) == 'connected', self.state == 'disconnected' and self.sid is None)",
               props=['C08', 'C09'])
+    c.ensures('close-fires-one-disconnect-event-with-the-server-reason',
+              "implies(pkt.packet_type == 1 and old(self.state) == 'connected' and "
+              "'disconnect' in self.handlers and handler_accepts(self.handlers['disconnect'], 1), "
+              "last_event_is(events, old(events), self.handlers['disconnect'], 1, "
+              "'server disconnect', None))", props=['C08'])
+    c.ensures('only-close-fires-an-event', "implies(pkt.packet_type != 1 or "
+              "old(self.state) != 'connected', events == old(events))", props=['C08'])
+    c.ensures('never-connects', "implies(old(self.state) != 'connected', "
+              "self.state != 'connected')", props=['C08'])
+    c.ensures('client-stays-wf', "(self.state == 'connected' or self.state == 'disconnecting' or "
+              "self.state == 'disconnected') and implies(self.state == 'connected', "
+              "self.queue.unf >= len(self.queue.items))")
     c.modifies('self.state', 'self.sid', 'self.queue.items', 'self.queue.unf',
                'self.queue.accepted', 'self.queue.put_none', 'ghost.events', 'ghost.hresults',
                'ghost.spawned', 'ghost.now')
@@ -196,3 +208,60 @@ for _cls, _mod in (('Client', 'client'), ('AsyncClient', 'async_client')):
         ('batch-wf', 'forall(lambda k: packets[k] is not None and packet_ok(packets[k]), 0, len(packets))')],
         modifies=['pkt', 'encoded_packet', 'self.queue.unf', 'ghost.ws_log', 'ghost.now',
                   'Packet.encode_cache'], props=['C09'])
+
+# ------------------------------------------------------------- the polling read loop (C08, C09)
+# Ends the connection it served: when it returns the client is no longer 'connected'; if nothing
+# else ended the connection first it fires exactly one disconnect event with reason
+# 'transport error' and resets; a CLOSE packet ends it with 'server disconnect' (inside
+# _receive_packet); no other synchronous event is fired by this loop.
+c = REG.contract('base_client.BaseClient._get_url_timestamp')
+c.trusted = True
+c.trusted_reason = "query-string suffix '' or '&t=<clock>' (no state)"
+c.param('self', Ref('BaseClient'))
+c.returns(STR)
+
+DISC_H = ("'disconnect' in self.handlers and handler_accepts(self.handlers['disconnect'], 1)")
+c = REG.contract('client.Client._read_loop_polling', props=['C08', 'C09'])
+c.param('self', Ref('Client'))
+c.requires("self.queue is not None and self.queue.unf >= len(self.queue.items) and "
+           "(self.state == 'connected' or self.state == 'disconnecting' or "
+           "self.state == 'disconnected') and self.read_loop_task is not None and "
+           "implies(self.current_transport == 'websocket', self.ws is not None)", 'client-wf')
+c.requires("isinstance(self.ping_interval, float) and isinstance(self.ping_timeout, float) and "
+           "isinstance(self.base_url, str)", 'timing-adopted-from-open')
+c.ensures('connection-is-over', "self.state != 'connected'", props=['C08'])
+c.ensures('at-most-one-disconnect-event-with-a-true-reason', 'implies(' + DISC_H + ", "
+          "events == old(events) or last_event_is(events, old(events), "
+          "self.handlers['disconnect'], 1, 'transport error', None) or "
+          "last_event_is(events, old(events), self.handlers['disconnect'], 1, "
+          "'server disconnect', None))", props=['C08'])
+# the connection this loop ends itself is reported once, as a transport error, before the reset
+c.check_before('self._reset()', 'transport-error-event-fired-before-reset', 'implies(' + DISC_H +
+               ", last_event_is(events, old(events), self.handlers['disconnect'], 1, "
+               "'transport error', None))", props=['C08'])
+R_MOD = ['self.state', 'self.sid', 'self.queue.items', 'self.queue.unf', 'self.queue.accepted',
+         'self.queue.put_none', 'ghost.events', 'ghost.hresults', 'ghost.spawned', 'ghost.now',
+         'ghost.http_bodies', 'new Payload.packets', 'new Packet.binary', 'new Packet.packet_type',
+         'new Packet.data', 'new Packet.encode_cache']
+c.modifies(*R_MOD)
+c.loop(0, invariants=[
+    ('wf', "(self.state == 'connected' or self.state == 'disconnecting' or "
+     "self.state == 'disconnected') and self.read_loop_task is not None and "
+     "implies(self.state == 'connected', self.queue.unf >= len(self.queue.items))"),
+    ('no-event-while-connected', "implies(self.state == 'connected', events == old(events))"),
+    ('ended-by-close-only', 'implies(' + DISC_H + " and self.state != 'connected', "
+     "events == old(events) or last_event_is(events, old(events), "
+     "self.handlers['disconnect'], 1, 'server disconnect', None))")],
+    modifies=['r', 'p', 'pkt'] + R_MOD)
+c.loop(1, index='j', invariants=[
+    ('wf', "(self.state == 'connected' or self.state == 'disconnecting' or "
+     "self.state == 'disconnected') and self.read_loop_task is not None and "
+     "implies(self.state == 'connected', self.queue.unf >= len(self.queue.items))"),
+    ('no-event-while-connected', "implies(self.state == 'connected', events == old(events))"),
+    ('ended-by-close-only', 'implies(' + DISC_H + " and self.state != 'connected', "
+     "events == old(events) or last_event_is(events, old(events), "
+     "self.handlers['disconnect'], 1, 'server disconnect', None))"),
+    ('decoded-packets', 'forall(lambda k: p.packets[k] is not None and '
+     '0 <= p.packets[k].packet_type and p.packets[k].packet_type <= 9 and '
+     '(p.packets[k].packet_type == 4 or not is_bin(p.packets[k].data)), 0, len(p.packets))')],
+    modifies=['pkt'] + R_MOD)
